@@ -42,7 +42,13 @@ THEOREMS = [P + n for n in (
     'concat_sampling_count', 'concat_sampling_disjoint',
     # round 2
     'kfold_both_mem', 'kfold_both_exhaustive_once', 'concat_sampling_matches_object',
-    'default_k_accepted', 'default_k_real')]
+    'default_k_accepted', 'default_k_real',
+    # round 3: the code as written (derived leaves), index alignment, crossval glue
+    'leaf_loop_positions', 'leaf_dispatch_tests', 'sets_lists_aligned', 'of_k_accept_iff',
+    'coded_entry_points_agree', 'of_k_group_sizes', 'random_axis_coded', 'random_coded_eq',
+    'random_default_sizes', 'kfold_both_indexed', 'sets_k_fold_indexed_once',
+    'crossval_pairs_by_index', 'cv_noise_ceiling_pairs', 'crossval_on_k_fold',
+    'internal_cv_pidx_multiset', 'bootcv_guard_no_skip')]
 RULE = ('one PRNG; sets: every generator (8) x 2-9 RDMs x 3-10 conditions, grouping descriptors '
         'with repeated values (int or string labels) or the index descriptor, optionally with '
         'repeated index values (bootstrap copies), k = 1..n plus defaults and the rejected values '
@@ -54,7 +60,11 @@ RULE = ('one PRNG; sets: every generator (8) x 2-9 RDMs x 3-10 conditions, group
         'draws under a seed, boot_type both/rdm/pattern, given and default fold counts; every sample is '
         'described to the model by a hook); a case is non-trivial when at least one axis is split '
         'into more than one fold or the call is rejected; distinct = distinct (kind, generator, '
-        'descriptors, parameters, shuffle outcomes)')
+        'descriptors, parameters, shuffle outcomes); round 3: the model side is the as-coded model built from '
+        'source-derived leaves (three lists, skip test, pairing); direct crossval calls vary the glue (ceil_set '
+        'passed / omitted, pattern_descriptor passed / defaulted, fitter single / list / model default, 2-3 '
+        'models); what cv_noise_ceiling pools and compares is recorded pair by pair; every bootstrap sample of '
+        'bootstrap_crossval is traced against the guard; groups-of-k with 11-14 groups; fit_regress_nn without skip')
 BRANCHES = ['gen:k_fold', 'gen:k_fold_rdm', 'gen:k_fold_pattern', 'gen:of_k_rdm', 'gen:of_k_pattern',
             'gen:random', 'gen:loo_rdm', 'gen:loo_pattern', 'random:true', 'random:false',
             'grouped:rdm', 'grouped:pattern', 'copies:rdm', 'copies:pattern', 'labels:str',
@@ -67,7 +77,11 @@ BRANCHES = ['gen:k_fold', 'gen:k_fold_rdm', 'gen:k_fold_pattern', 'gen:of_k_rdm'
             'cv:nc_no_ceil', 'cv:skipped_fold', 'cv:bootcv', 'bootcv:both', 'bootcv:rdm',
             'bootcv:pattern', 'bootcv:default_k', 'cv:bare_model',
             # round 3
-            'cv:multi_model_multi_fold', 'cv:three_models']
+            'cv:multi_model_multi_fold', 'cv:three_models',
+            # round 3 (worker): glue around crossval, guard of bootstrap_crossval, defaults of sets_random
+            'cv:omit_ceil', 'cv:pdesc_default', 'cv:fitter_list', 'cv:fitter_default', 'cv:nc_pairs',
+            'bootcv:guard_rejects', 'bootcv:guard_accepts', 'random:default_sizes', 'of_k:not_k_or_k1',
+            'fit:regress_nn_boot']
 ASSUMPTIONS = [
     'descriptor values are mapped to natural-number codes (non-negative ints as themselves, strings '
     'by rank) before they reach the model; np.unique orders ints numerically and strings by code point',
@@ -86,7 +100,7 @@ GENS = ['k_fold', 'k_fold_rdm', 'k_fold_pattern', 'of_k_rdm', 'of_k_pattern', 'r
 RDM_ONLY = ('k_fold_rdm', 'of_k_rdm', 'loo_rdm')
 EXHAUSTIVE = ('k_fold', 'k_fold_rdm', 'k_fold_pattern', 'of_k_rdm', 'of_k_pattern', 'loo_rdm',
               'loo_pattern')
-EXC = ('AssertionError', 'ZeroDivisionError', 'IndexError', 'TypeError', 'ValueError', 'KeyError')
+EXC = ('AssertionError', 'ZeroDivisionError', 'IndexError', 'TypeError', 'ValueError', 'KeyError', 'Timeout')
 
 
 # ------------------------------------------------------------------ building inputs
@@ -313,7 +327,8 @@ def _alarm(_sig, _frm):
     raise _Timeout()
 
 
-FIT_SECONDS = 2.0   # fit_regress_nn (_nn_least_squares) is known not to terminate on ~2 % of inputs (C08)
+FIT_SECONDS = 30.0  # safety net only: fit_regress_nn terminates since /repo 217b28e5; a fit that does not
+                    # return is reported as an exception of the cross-validated evaluation ('Timeout')
 
 
 def _obj_content(obj):
@@ -345,7 +360,8 @@ def _cv_once(case, matrix, fixed_thetas=None):
     rvals, _ = _axis(case, 'rdm')
     rmap = _codes(rvals)
     rec = {'fit': [], 'cmp': [], 'thetas': [], 'raw_thetas': [], 'sets': [], 'calls': [],
-           'evals': [[] for _ in models], 'hook_scores': [], 'test_objs': [], 'fit_model': []}
+           'evals': [[] for _ in models], 'hook_scores': [], 'test_objs': [], 'fit_model': [],
+           'nc_pairs': [], 'guard': [], 'slots': []}
     calls = [0]
 
     def fitter(mdl, data, method='cosine', pattern_idx=None, pattern_descriptor=None, **kw):
@@ -423,6 +439,8 @@ def _cv_once(case, matrix, fixed_thetas=None):
                 'dis': [[_num(v) for v in row] for row in np.asarray(sample.dissimilarities).tolist()],
                 'boot_pidx': [_code_of(pmap, v) for v in pattern_idx],
                 'k_rdm': int(k_rdm), 'k_pattern': int(k_pattern)}
+        if rec['guard']:
+            rec['guard'][-1][2] += 1
         out = real_icv(models, sample, pdesc_, rdesc_, pattern_idx, k_pattern, k_rdm, method, fitter_)
         log = tap_box[0].log[n0:]
         call['rsel'] = [_code_of(rmap, v) for v in log[0]] if log else None
@@ -433,9 +451,62 @@ def _cv_once(case, matrix, fixed_thetas=None):
             rec['evals'][j_] += [float(v) for v in ret[0, j_]]
         return out
 
+    # what cv_noise_ceiling pools / compares, pair by pair (only while it runs)
+    from rsatoolbox.inference import noise_ceiling as ncm
+    real_cvnc, real_pool, real_nccmp = ev.cv_noise_ceiling, ncm.pool_rdm, ncm.compare
+    in_nc = [False]
+    pooled = []
+
+    def _rc(obj_):
+        rk = 'spos' if 'spos' in obj_.rdm_descriptors else 'orig'
+        pk = 'spos' if 'spos' in obj_.pattern_descriptors else 'orig'
+        return (sorted(int(v) for v in obj_.rdm_descriptors[rk]),
+                [int(v) for v in obj_.pattern_descriptors[pk]])
+
+    def pool_hook(r_, *a, **kw):
+        if in_nc[0]:
+            pooled.append(_rc(r_))
+        return real_pool(r_, *a, **kw)
+
+    compared = []
+
+    def nccmp_hook(pred, data, *a, **kw):
+        if in_nc[0]:
+            compared.append(_rc(data))
+        return real_nccmp(pred, data, *a, **kw)
+
+    def cvnc_hook(*a, **kw):
+        in_nc[0] = True
+        try:
+            return ncm.cv_noise_ceiling(*a, **kw)
+        finally:
+            in_nc[0] = False
+    real_samplers = {n_: getattr(ev, n_) for n_ in ('bootstrap_sample', 'bootstrap_sample_rdm',
+                                                    'bootstrap_sample_pattern')}
+
+    def sampler_hook(name_):
+        def hook(data_, **kw):
+            out_ = real_samplers[name_](data_, **kw)
+            nr_ = len(set(map(str, data_.rdm_descriptors[rby])))
+            np__ = len(set(map(str, data_.pattern_descriptors[pby or 'index'])))
+            if name_ == 'bootstrap_sample':
+                nr_, np__ = len(set(map(str, out_[1]))), len(set(map(str, out_[2])))
+            elif name_ == 'bootstrap_sample_rdm':
+                nr_ = len(set(map(str, out_[1])))
+            else:
+                np__ = len(set(map(str, out_[1])))
+            rec['guard'].append([nr_, np__, 0])
+            return out_
+        return hook
+
     ev.compare = compare_hook
     ev.sets_k_fold = sets_hook
     ev._internal_cv = icv_hook
+    ev.cv_noise_ceiling = cvnc_hook
+    ncm.pool_rdm = pool_hook
+    ncm.compare = nccmp_hook
+    for n_ in real_samplers:
+        setattr(ev, n_, sampler_hook(n_))
     try:
         with ShuffleTap(case.get('shuffle')) as tap, np.errstate(all='ignore'), warnings.catch_warnings():
             warnings.simplefilter('ignore')
@@ -458,17 +529,42 @@ def _cv_once(case, matrix, fixed_thetas=None):
                 else:
                     train, test, ceil = _call_gen(case, rdms)
                     note_sets(train, test)
-                    res = ev.crossval(model_arg, rdms, train, test,
-                                      ceil_set=ceil, method=case['method'],
-                                      fitter=fitter, pattern_descriptor=pby or 'index',
-                                      calc_noise_ceil=bool(case.get('calc_nc', False)))
+                    glue = case.get('glue', {})
+                    kw = {'method': case['method'], 'calc_noise_ceil': bool(case.get('calc_nc', False))}
+                    if not glue.get('omit_ceil'):
+                        kw['ceil_set'] = ceil
+                    if not (glue.get('pdesc_default') and (pby or 'index') == 'index'):
+                        kw['pattern_descriptor'] = pby or 'index'
+                    form = glue.get('fitter_form', 'single')
+
+                    def slot_fitter(j_):
+                        # a distinct fitter per model slot: it must be called for its own model only
+                        def f_(mdl, data, **kw_):
+                            rec['slots'].append([j_, next(q for q, m2 in enumerate(models) if m2 is mdl)])
+                            return fitter(mdl, data, **kw_)
+                        return f_
+                    if form == 'list':
+                        kw['fitter'] = [slot_fitter(j_) for j_ in range(len(models))]
+                    elif form == 'default':
+                        for j_, m_ in enumerate(models):
+                            m_.default_fitter = slot_fitter(j_)     # the model's own default fitter is used
+                    else:
+                        kw['fitter'] = fitter
+                    res = ev.crossval(model_arg, rdms, train, test, **kw)
                     evals = [[float(v) for v in row] for row in np.asarray(res.evaluations)[0]]
             except _Timeout:
-                return {'timeout': True, 'log': tap.log}
+                return {'exc': 'Timeout', 'log': tap.log}
             except Exception as exc:  # noqa: BLE001
                 return {'exc': _exc_name(exc), 'log': tap.log}
         rec['evals'] = evals
         rec['log'] = tap.log
+        # per pass of cv_noise_ceiling: pool(ceil), pool(all), compare(·, test), compare(·, test)
+        if len(pooled) == len(compared) and len(pooled) % 2 == 0 \
+                and all(compared[q] == compared[q + 1] for q in range(0, len(compared), 2)):
+            rec['nc_pairs'] = [[pooled[q][0], pooled[q][1], compared[q][0], compared[q][1]]
+                               for q in range(0, len(pooled), 2)]
+        else:
+            rec['nc_pairs'] = ['inconsistent call pattern', len(pooled), len(compared)]
         # the score of every (fold, model) recomputed directly from the returned test set, the
         # recorded θ and the library's own predict / compare (independent of crossval's bookkeeping)
         rec['direct'] = []
@@ -489,6 +585,11 @@ def _cv_once(case, matrix, fixed_thetas=None):
         ev.compare = real_compare
         ev.sets_k_fold = real_sets
         ev._internal_cv = real_icv
+        ev.cv_noise_ceiling = real_cvnc
+        ncm.pool_rdm = real_pool
+        ncm.compare = real_nccmp
+        for n_ in real_samplers:
+            setattr(ev, n_, real_samplers[n_])
 
 
 def _perturb(case, matrix, keep, seed):
@@ -520,8 +621,6 @@ def _same_float_lists(a, b):
 def _crossval_experiment(case):
     base = _base_matrix(case)
     r0 = _cv_once(case, base)
-    if 'timeout' in r0:
-        return {'skip': 'fitter did not return within %.0f s' % FIT_SECONDS}, []
     if 'exc' in r0:
         return {'exc': r0['exc']}, r0.get('log', [])
     if case.get('bootcv'):
@@ -537,6 +636,11 @@ def _crossval_experiment(case):
            and r0['fit_model'] == [j for _ in live for j in range(nM)],
            'stored_matches': [],
            'n_calls': len(r0['calls']),
+           'nc_pairs': r0['nc_pairs'],
+           'fitter_slots_ok': all(a_ == b_ for a_, b_ in r0['slots']),
+           'guard': [[g_[0], g_[1], g_[2] > 0] for g_ in r0['guard']],
+           'guard_reps_ok': all(g_[2] in (0, case['bootcv']['n_cv']) for g_ in r0['guard'])
+           if case.get('bootcv') else True,
            'k_used': sorted(set((c['k_rdm'], c['k_pattern']) for c in r0['calls'])),
            'theta_stable': [], 'score_stable': [], 'fit_args_stable': [],
            'perturbed_test_only': [], 'perturbed_train_only': [], 'sensitive': False}
@@ -562,8 +666,6 @@ def _crossval_experiment(case):
         m1, n1 = _perturb(case, base, lambda r, i, j: r in trr and i in trc and j in trc,
                           case['pseed'] + 2 * q)
         r1 = _cv_once(case, m1)
-        if 'timeout' in r1:
-            return {'skip': 'fitter did not return within %.0f s' % FIT_SECONDS}, []
         ok_theta = 'exc' not in r1 and len(r1['thetas']) == len(r0['thetas']) \
             and all(same(r1['thetas'][c], r0['thetas'][c]) for c in cs)
         ok_args = 'exc' not in r1 and len(r1['fit']) == len(r0['fit']) \
@@ -651,7 +753,8 @@ def model_requests(case):
         reqs = [{'op': 'c05.default_k', 'n_rdm_groups': _n_groups(case, 'rdm'),
                  'x_rdm': fbits(shrink_ * _n_groups(case, 'rdm')),
                  'x_pattern': fbits(shrink_ * _n_groups(case, 'pat')),
-                 'k_rdm': prm.get('k_rdm'), 'k_pattern': prm.get('k_pattern')}]
+                 'k_rdm': prm.get('k_rdm'), 'k_pattern': prm.get('k_pattern'),
+                 'samples': [[g_[0], g_[1]] for g_ in res.get('guard', [])] if isinstance(res, dict) else []}]
         for c in (log if isinstance(res, dict) and 'exc' not in res else []):
             r = {'op': 'c05.sets', 'gen': 'k_fold', 'rdesc': c['rdesc'], 'pdesc': c['pdesc'],
                  'dis': c['dis'], 'k_rdm': c['k_rdm'], 'k_pattern': c['k_pattern'],
@@ -660,7 +763,15 @@ def model_requests(case):
                 r['rsel'] = c['rsel']
             reqs.append(r)
         return reqs
+    if case['kind'] == 'crossval' and case.get('boot_pidx') is not None:
+        return [_sets_request(case, log),
+                {'op': 'c05.boot_guard', 'samples': [], 'k_rdm': case['params']['k_rdm'],
+                 'k_pattern': case['params']['k_pattern']}]
     return [_sets_request(case, log)]
+
+
+def _nc_pair(pr):
+    return [sorted(pr[0]), list(pr[1]), sorted(pr[2]), list(pr[3])]
 
 
 def _canon_part(p):
@@ -680,11 +791,17 @@ def model_result(case, answers):
             if isinstance(a, dict) and 'exc' in a:
                 return {'model_error': 'model rejects a sample the implementation cross-validated: ' + a['exc']}
         kdef, answers = (answers[0], answers[1:]) if case.get('bootcv') and answers else (None, answers)
-        folds = [{k: _canon_part(f[k]) for k in ('train', 'test', 'ceil')}
+        folds = [dict({k: _canon_part(f[k]) for k in ('train', 'test', 'ceil')}, skip=f['skip'])
                  for a in answers for f in a['folds']]
-        a = {'n_calls': len(answers)}
+        cv_nc = bool(kdef[3]) if kdef is not None else False
+        a = {'n_calls': len(answers),
+             'nc_pairs': [_nc_pair(pr) for a_ in answers for pr in (a_['nc_pairs'] or [])] if cv_nc else []}
         if kdef is not None:
             a['k_used'] = [[int(kdef[0]), int(kdef[1])]] if answers else []
+            impl_, _ = _impl_cached(case)
+            samples = impl_.get('guard', []) if isinstance(impl_, dict) else []
+            a['guard'] = [[g_[0], g_[1], bool(r_)] for g_, r_ in zip(samples, kdef[2])]
+            a['guard_reps_ok'] = True
     else:
         a = answers[0]
         if case['kind'] == 'concat':
@@ -693,18 +810,28 @@ def model_result(case, answers):
             return a
         if 'exc' in a:
             return {'exc': a['exc']}
-        folds = [{k: _canon_part(f[k]) for k in ('train', 'test', 'ceil')} for f in a['folds']]
-    if case['kind'] == 'sets':
-        no_ceil = bool(folds) and folds[0]['ceil'] is None
-        return {'folds': folds, 'n_train': len(folds), 'n_test': len(folds),
-                'n_ceil': None if no_ceil else len(folds)}
-    # crossval: what the fitter / the comparison must receive, fold by fold
-    live = [q for q, f in enumerate(folds)
-            if not (len(f['train']['rows']) == 0 or len(f['test']['rows']) == 0
-                    or len(f['train']['conds']) <= 2 or len(f['test']['conds']) <= 2)]
+        folds = [dict({k: _canon_part(f[k]) for k in ('train', 'test', 'ceil')}, skip=f['skip'])
+                 for f in a['folds']]
+        if case['kind'] == 'sets':
+            # the three lists as the model (built from the source-derived leaves) returns them
+            return {'folds': [{k: f[k] for k in ('train', 'test', 'ceil')} for f in folds],
+                    'n_train': a['n_train'], 'n_test': a['n_test'], 'n_ceil': a['n_ceil']}
+        if not a['crossval_accepts']:
+            return {'exc': 'AssertionError'}
+        glue = case.get('glue', {})
+        if case.get('boot_pidx') is not None:
+            uses = bool(answers[1]['cv_nc'])
+        else:
+            uses = bool(case.get('calc_nc')) and not glue.get('omit_ceil') and a['n_ceil'] is not None
+        a = dict(a, nc_pairs=[_nc_pair(pr) for pr in (a['nc_pairs'] or [])] if uses else [])
+    # crossval: what the fitter / the comparison must receive, fold by fold; which folds crossval
+    # skips is decided by the model (skip test from the source-derived leaf)
+    live = [q for q, f in enumerate(folds) if not f['skip']]
     nM = len(_model_specs(case))
     return {'n_folds': len(folds), 'live': live, **({'n_calls': a['n_calls']} if 'n_calls' in a else {}),
             **({'k_used': a['k_used']} if 'k_used' in a else {}),
+            **({k_: a[k_] for k_ in ('nc_pairs', 'guard', 'guard_reps_ok') if k_ in a}),
+            'fitter_slots_ok': True,
             'n_models': nM,
             # every model of a fold is fitted on the same training part and scored on the same test part
             'fit': [{k: folds[q]['train'][k] for k in ('rows', 'conds', 'vecs', 'pidx')}
@@ -775,6 +902,14 @@ def features(case, impl):
          'default_pattern_descriptor': g == 'of_k_pattern' and pby is None}
     if g == 'loo_rdm' and nrg == 1:
         br.append('loo:single_group')
+    okres = isinstance(impl, dict) and 'exc' not in impl and 'skip' not in impl
+    if g == 'random' and okres and (prm.get('n_rdm') is None or prm.get('n_pattern') is None):
+        br.append('random:default_sizes')
+    if g in ('of_k_rdm', 'of_k_pattern') and okres and prm.get('k'):
+        n_ = nrg if g == 'of_k_rdm' else npg
+        k_ = prm['k']
+        if 2 * k_ <= n_ and n_ // (n_ // k_) + (1 if n_ % (n_ // k_) else 0) > k_ + 1:
+            br.append('of_k:not_k_or_k1')       # the docstring's "groups of k or k+1" does not hold
     if kind == 'crossval':
         ok = isinstance(impl, dict) and 'exc' not in impl and 'skip' not in impl
         if case.get('bootcv'):
@@ -794,8 +929,23 @@ def features(case, impl):
             br.append('cv:nc_given_ceil' if g not in ('k_fold_pattern', 'of_k_pattern') else 'cv:nc_no_ceil')
         if ok and impl.get('n_folds', 0) > len(impl.get('live', [])):
             br.append('cv:skipped_fold')
-        if isinstance(impl, dict) and 'skip' in impl:
-            br.append('cv:timeout')
+        glue = case.get('glue', {})
+        if ok and glue.get('omit_ceil'):
+            br.append('cv:omit_ceil')
+        if ok and glue.get('pdesc_default') and (pby or 'index') == 'index':
+            br.append('cv:pdesc_default')
+        if ok and glue.get('fitter_form') in ('list', 'default'):
+            br.append('cv:fitter_' + glue['fitter_form'])
+        if ok and impl.get('nc_pairs'):
+            br.append('cv:nc_pairs')
+        if ok and case.get('bootcv'):
+            if any(not g_[2] for g_ in impl.get('guard', [])):
+                br.append('bootcv:guard_rejects')
+            if any(g_[2] for g_ in impl.get('guard', [])):
+                br.append('bootcv:guard_accepts')
+        if ok and case['model'].get('fitter') == 'regress_nn' \
+                and (case.get('bootcv') or case.get('boot_pidx') is not None):
+            br.append('fit:regress_nn_boot')
         if ok and case.get('bare_model'):
             br.append('cv:bare_model')
         if ok and impl.get('n_models', 1) >= 2 and len(impl.get('live', [])) >= 2:
@@ -824,7 +974,7 @@ def nontrivial_key(case, impl):
     return [case['kind'], case['gen'], case['params'], case['rdm'], case['pat'],
             case.get('shuffle'), case.get('model'), case.get('extra_models'), case.get('boot_pidx'),
             case.get('bootcv'),
-            case.get('method'), case.get('calc_nc')]
+            case.get('method'), case.get('calc_nc'), case.get('glue')]
 
 
 # ------------------------------------------------------------------ generators
@@ -832,7 +982,8 @@ def nontrivial_key(case, impl):
 def _labels(rng, n, n_groups, strings):
     """n labels over exactly n_groups groups, in random arrangement"""
     if strings:
-        pool = rng.sample(['ab', 'b', 'B', 'a', 'c10', 'c9', 'zz', 'A1', 'd', 'e', 'f', 'g'], n_groups)
+        pool = rng.sample(['ab', 'b', 'B', 'a', 'c10', 'c9', 'zz', 'A1', 'd', 'e', 'f', 'g', 'h2', 'H', 'x'],
+                          n_groups)
     else:
         pool = rng.sample(range(0, 3 * n + 2), n_groups)
     lab = list(pool) + [rng.choice(pool) for _ in range(n - n_groups)]
@@ -877,6 +1028,10 @@ def _shuffle_spec(rng, case, n_calls_sizes):
 def _gen_sets_case(rng, gen=None, malformed=False):
     nR, nC = rng.randint(2, 9), rng.randint(3, 10)
     gen = gen or rng.choice(GENS)
+    if gen == 'of_k_pattern' and rng.random() < 0.3:
+        nC = rng.randint(11, 14)      # >= 11 groups: test folds larger than k + 1 become possible
+    if gen == 'of_k_rdm' and rng.random() < 0.3:
+        nR = rng.randint(11, 13)
     case = {'kind': 'sets', 'gen': gen, 'rdm': _gen_axis(rng, nR), 'pat': _gen_axis(rng, nC)}
     if gen == 'loo_rdm' and rng.random() < 0.15:
         # a single RDM group: leave-one-out degenerates to the whole object as its own test set
@@ -914,6 +1069,10 @@ def _gen_sets_case(rng, gen=None, malformed=False):
     elif gen in ('of_k_rdm', 'of_k_pattern'):
         n = nrg if gen == 'of_k_rdm' else npg
         prm['k'] = rng.choice([0, n // 2 + 1, n]) if malformed else rng.randint(1, max(1, n // 2))
+        if not malformed and n >= 11 and rng.random() < 0.5:
+            prm['k'] = 4 if n == 11 else rng.choice([k_ for k_ in range(2, n // 2 + 1)
+                                                     if n // (n // k_) + (1 if n % (n // k_) else 0) > k_ + 1]
+                                                    or [n // 2])
         sizes = [n]
         if gen == 'of_k_pattern' and INCLUDE_DEFAULT_NONE and not malformed and case['pat']['by'] == 'index' \
                 and rng.random() < 0.3:
@@ -947,8 +1106,9 @@ def _extra_models(rng, case):
         if base.get('g'):
             ms['g'] = list(base['g'])
         if ms['type'] == 'weighted':
-            ms['fitter'] = 'regress'
-            ms['ridge'] = rng.choice([0.5, 1.0, 2.0])
+            ms['fitter'] = rng.choice(['regress', 'regress', 'regress_nn'])
+            if ms['fitter'] == 'regress':
+                ms['ridge'] = rng.choice([0.5, 1.0, 2.0])
         extra.append(ms)
     pos = rng.randint(0, len(extra))          # the primary model is not always the first
     case['extra_models'] = extra
@@ -958,15 +1118,15 @@ def _extra_models(rng, case):
 def _gen_bootcv_case(rng):
     """the public entry point bootstrap_crossval (real bootstrap draws under a seed, every sample
     it cross-validates is described to the model by a hook on _internal_cv)"""
-    nR, nC = rng.randint(3, 6), rng.randint(8, 12)
-    rax = _gen_axis(rng, nR, allow_copies=False)
+    nR, nC = rng.randint(3, 6), rng.randint(7, 12)     # 7-8 conditions, k_pattern = 2: the guard
+    rax = _gen_axis(rng, nR, allow_copies=False)          # (>= 3 * k_pattern distinct) often rejects
     pat = _gen_axis(rng, nC, allow_copies=False)
     if pat['by'] == 'g':                      # few, large pattern groups would never pass the guard
         pat['g'] = _labels(rng, nC, rng.randint(nC - 2, nC), isinstance(pat['g'][0], str))
     mtype = rng.choice(['fixed', 'select', 'weighted'])
     case = {'kind': 'crossval', 'gen': 'k_fold', 'rdm': rax, 'pat': pat,
             'params': {'random': True, 'k_rdm': rng.randint(1, 2), 'k_pattern': rng.randint(1, 2)},
-            'bootcv': {'seed': rng.randrange(10 ** 6), 'N': 2, 'n_cv': rng.randint(1, 2),
+            'bootcv': {'seed': rng.randrange(10 ** 6), 'N': rng.randint(2, 4), 'n_cv': rng.randint(1, 2),
                        'boot_type': rng.choice(['both', 'rdm', 'pattern'])},
             'shuffle': {'seed': rng.randrange(10 ** 6)},
             'model': {'type': mtype, 'n_cond': nC, 'n_rdm': rng.randint(2, 3),
@@ -974,8 +1134,9 @@ def _gen_bootcv_case(rng):
             'values': 'random', 'dseed': rng.randrange(10 ** 6), 'pseed': rng.randrange(10 ** 6),
             'method': rng.choice(['cosine', 'corr'])}
     if mtype == 'weighted':
-        case['model']['fitter'] = 'regress'
-        case['model']['ridge'] = rng.choice([0.5, 1.0])
+        case['model']['fitter'] = rng.choice(['regress', 'regress_nn'])
+        if case['model']['fitter'] == 'regress':
+            case['model']['ridge'] = rng.choice([0.5, 1.0])
     if rng.random() < 0.3:
         # default fold counts: default_k_*((1 - 1/e) * number of groups), 1 for a single rdm group
         case['params'] = {'random': True, 'k_rdm': None, 'k_pattern': None}
@@ -1073,6 +1234,11 @@ def _gen_crossval_case(rng):
         case['calc_nc'] = True
     if not boot and rng.random() < 0.12:
         case['bare_model'] = True       # a Model instead of a list of models
+    if not boot:
+        # the glue around the modelled core: ceil_set passed or omitted, pattern_descriptor passed or
+        # left to its default, one fitter / a list of fitters / the models' default fitters
+        case['glue'] = {'omit_ceil': rng.random() < 0.3, 'pdesc_default': rng.random() < 0.5,
+                        'fitter_form': rng.choice(['single', 'single', 'list', 'default'])}
     case['values'] = 'random'
     case['dseed'] = rng.randrange(10 ** 6)
     case['pseed'] = rng.randrange(10 ** 6)
@@ -1331,6 +1497,17 @@ def _oracle_crossval(case):
     if not res['calls_match']:
         return _viol('the fitter / comparison is not called once per evaluable fold',
                      [len(res['fit']), len(res['cmp'])], len(res['live']), **feat)
+    if not res.get('fitter_slots_ok', True):
+        return _viol('a model is fitted with the fitter given for another model (fitter list / default fitters)',
+                     'fitter of another slot', 'its own fitter', part='fitter', **feat)
+    for pr in res.get('nc_pairs', []):
+        if len(pr) != 4 or not all(isinstance(x, list) for x in pr):
+            continue
+        if pr[1] != pr[3] or (set(pr[0]) & set(pr[2]) and set(pr[0]) != set(pr[2])):
+            return _viol('the cross-validated noise ceiling pairs a ceiling set with the test set of another '
+                         'fold (ceiling RDMs overlap the test RDMs, or other conditions)',
+                         {'ceil': [pr[0], pr[1]], 'test': [pr[2], pr[3]]},
+                         'training RDMs of the fold at the test conditions of the same fold', part='nc', **feat)
     for pos, q in enumerate(res['live']):
         if not res['stored_matches'][pos]:
             return _viol(f'fold {q}: an evaluation returned by crossval for (model, fold) is not the score of '
